@@ -916,7 +916,7 @@ func runC12(r *Run, rng *Rng, tier string) error {
 		"commonLabels/labels/commonAnnotations/images/replicas/patches/patchesStrategicMerge/patchesJson6902/configMapGenerator/secretGenerator/" +
 		"generatorOptions/replacements/sortOptions/buildMetadata/vars/configurations/components/transformers) with 1-3 structural YAML-node mutations " +
 		"(retype/delete/duplicate/splice/junk/meta-characters/key rename) or byte-level mutations of a resource file, each built by krusty.Run on an in-memory fs " +
-		"inside a worker subprocess (recover+stack, process death, 5 s watchdog with stack sampling, 2 GiB heap watchdog); byte cases: the same byte streams through " +
+		"inside a worker subprocess (recover+stack, process death, 5 s per-case watchdog with stack sampling, 1.5 GiB heap watchdog); byte cases: the same byte streams through " +
 		"kio.ByteReader(+ByteWriter) and resource.Factory.SliceFromBytes; core cases: kyaml Lookup/LookupCreate/fieldspec.Filter on mutated documents, outcome class " +
 		"compared with the Coq model. non-trivial = the unmutated tree built successfully and the mutant differs from it; distinct by hash of the case"
 	known := c12KnownClasses()
@@ -1000,7 +1000,7 @@ func runC12(r *Run, rng *Rng, tier string) error {
 			if strings.HasPrefix(m, "directed:") {
 				w := strings.Fields(m)
 				key := w[0]
-				if len(w) > 1 && w[0] != "directed:openapi-layers" && w[0] != "directed:emptyfile" {
+				if len(w) > 1 && w[0] != "directed:openapi-layers" && w[0] != "directed:emptyfile" && w[0] != "directed:crdcycle" {
 					key += " " + strings.SplitN(w[1], "=", 2)[0]
 				} else if len(w) > 1 && w[0] == "directed:emptyfile" {
 					key += " " + w[1]
@@ -1038,6 +1038,14 @@ func runC12(r *Run, rng *Rng, tier string) error {
 	}
 	r.Meta.Notes = append(r.Meta.Notes, fmt.Sprintf("%d corpus + %d unmutated + %d mutant cases on %d worker processes in %.1fs; slowest finished case %d ms",
 		nCorpus, nBase, len(cases)-nCorpus-nBase, nWorkers, wall.Seconds(), slow))
+	r.Meta.Notes = append(r.Meta.Notes, fmt.Sprintf("per-case time bound: %d ms budget inside the worker (a case counts as hang only when it has burnt >= 60 %% of the budget in CPU time, "+
+		"or its goroutine is blocked, or 6 budgets of wall time have passed; then it is re-run once on a fresh worker with twice the budget and must hang again); "+
+		"the parent gives up on a silent worker after 6 budgets + 8 s and kills it; heap watchdog %d MiB (20 ms tick), RLIMIT_AS 8 GiB, max goroutine stack 96 MiB",
+		c12DefaultTimeoutMs, c12HeapLimit>>20))
+	r.Meta.Notes = append(r.Meta.Notes, fmt.Sprintf("worker isolation: every case runs in one of %d re-exec'ed worker processes (JSON lines over pipes, in-memory file system per case, no network, no exec plugins); "+
+		"a worker is discarded and replaced after a hang, a heap overrun, a process death (os.Exit, log.Fatal, runtime fatal error such as stack overflow or concurrent map write) and after every case "+
+		"that may leave process-global state behind (cases mentioning openapi run with fresh=true); a recovered panic leaves the worker in place (the in-memory fs and the resource factory are per case); "+
+		"the death of a worker is attributed to the case it was running, never to its neighbours", nWorkers))
 
 	// 3. kyaml core: outcome class of Lookup / LookupCreate / fieldspec.Filter vs the Coq model
 	c12CoreCases(r, rng.Fork(), gen, nCore)
